@@ -5,7 +5,7 @@
    interpreter Msg.v and the layouts of LayoutsConnect.v, for the REPAIRED code.
    External code (yasna's BER parser, the TLS handshake, the CredSSP exchange) is
    universally quantified; what is assumed of it is exactly [oracle_bytes_ok] /
-   [oracle_stream_ok]: it returns Ok or Err, and what it hands on are bytes. *)
+   [oracle_stream_ok] / [oracle_cssp_ok]: it returns Ok or Err, and what it hands on are bytes. *)
 From RdpV Require Import Base Msg MsgSafe LayoutsGlobal LayoutsConnect Link Tpkt Global BerYasna Connect ConnectRun
      C06_proofs C05_proofs C05_examples C05_examples_proofs.
 
@@ -15,10 +15,11 @@ From RdpV Require Import Base Msg MsgSafe LayoutsGlobal LayoutsConnect Link Tpkt
    any fragmentation -- the whole connection sequence returns a value or an error: never
    Panic, never Spin. *)
 Theorem C05_total :
-  forall (p : prof) (ber_parse : bytes -> outcome bytes) (tls_start nla_start : stream -> outcome stream),
-    oracle_bytes_ok ber_parse -> oracle_stream_ok tls_start -> oracle_stream_ok nla_start ->
+  forall (p : prof) (ber_parse : bytes -> outcome bytes) (trusted : bool)
+         (tls_start : stream -> outcome stream) (cssp_run : stream -> nat * outcome stream),
+    oracle_bytes_ok ber_parse -> oracle_stream_ok tls_start -> oracle_cssp_ok cssp_run ->
     forall (c : config) (cs : stream),
-      wf_stream cs -> nocrash (fst (run_connect p ber_parse tls_start nla_start c cs)).
+      wf_stream cs -> nocrash (fst (run_connect p ber_parse trusted tls_start cssp_run c cs)).
 Proof. exact connect_total. Qed.
 Print Assumptions C05_total.
 
@@ -26,10 +27,11 @@ Print Assumptions C05_total.
    bodies, the channel-id array, licence message and blob) exceeds 2 * 65535 bytes: every
    such size is a 16-bit field, at most scaled by the 2-byte element width. *)
 Theorem C05_alloc :
-  forall (p : prof) (ber_parse : bytes -> outcome bytes) (tls_start nla_start : stream -> outcome stream),
-    oracle_bytes_ok ber_parse -> oracle_stream_ok tls_start -> oracle_stream_ok nla_start ->
+  forall (p : prof) (ber_parse : bytes -> outcome bytes) (trusted : bool)
+         (tls_start : stream -> outcome stream) (cssp_run : stream -> nat * outcome stream),
+    oracle_bytes_ok ber_parse -> oracle_stream_ok tls_start -> oracle_cssp_ok cssp_run ->
     forall (c : config) (cs : stream),
-      wf_stream cs -> s_alloc (snd (run_connect p ber_parse tls_start nla_start c cs)) <= 131070.
+      wf_stream cs -> s_alloc (snd (run_connect p ber_parse trusted tls_start cssp_run c cs)) <= 131070.
 Proof. exact connect_alloc. Qed.
 Print Assumptions C05_alloc.
 
@@ -94,9 +96,9 @@ Print Assumptions C05_nonvacuous.
    unwind meets them (and the wrapped yasna model connects on the valid conversation); a
    transport on which TLS cannot be established meets them. *)
 Theorem C05_oracles_satisfiable :
-  (forall f, oracle_bytes_ok (guard_bytes f)) /\ oracle_stream_ok no_tls /\
-  exists sd, fst (run_connect Debug (guard_bytes (ber_connect_response Debug)) no_tls no_tls ex_config ex_conversation) = Ok (1004, sd).
-Proof. exact (conj guard_bytes_ok (conj no_tls_ok ex_connects_guarded)). Qed.
+  (forall f, oracle_bytes_ok (guard_bytes f)) /\ oracle_stream_ok no_tls /\ (forall post, oracle_stream_ok (tls_exact post)) /\ oracle_cssp_ok no_cssp /\
+  exists sd, fst (run_connect Debug (guard_bytes (ber_connect_response Debug)) false no_tls no_cssp ex_config ex_conversation) = Ok (1004, sd).
+Proof. exact (conj guard_bytes_ok (conj no_tls_ok (conj tls_exact_ok (conj no_cssp_ok ex_connects_guarded)))). Qed.
 Print Assumptions C05_oracles_satisfiable.
 
 (* The model is the model of the repaired code: the inputs that made the unrepaired code
@@ -107,7 +109,7 @@ Theorem C05_repaired_witnesses : forall p,
   fst (gcc_impl p ex_gcc_blocklen3) = Err EInvalidSize /\
   fst (gcc_impl p ex_gcc_no_net) = Err EInvalidData /\
   fst (gcc_impl p ex_gcc_no_core) = Err EInvalidData /\
-  fst (connect_impl p ex_config [ex_cc_hybrid]) = Err EInvalidOptionalField.
+  fst (connect_impl p ex_config_nla_noauth [ex_cc_hybrid]) = Err EInvalidOptionalField.
 Proof. exact ex_repaired. Qed.
 Print Assumptions C05_repaired_witnesses.
 
